@@ -46,7 +46,11 @@ struct FileSpec
 struct Graph
 {
     std::vector<FileSpec> f;
+    std::vector<int> dirOf; // directory of each file (index into DIRS); empty = everything in one directory
+    int hrefStyle = 0;      // 0 plain relative href, 1 with a redundant "./", 2 with a redundant "dir/../" detour
 };
+static const char *DIRS[] = {"", "a/", "a/b/", "s/"};
+static const char *HREF_STYLE[] = {"plain", "dot-slash", "detour-through-a-directory-and-back"};
 static const int COMP = 0, UNITS = 1;
 struct Node
 {
@@ -59,6 +63,29 @@ static const Ent &entOf(const Graph &g, Node n) { return n.kind == COMP ? g.f[n.
 static Ent &entOf(Graph &g, Node n) { return n.kind == COMP ? g.f[n.f].c[n.k] : g.f[n.f].u[n.k]; }
 static std::string fileName(int j) { return "f" + std::to_string(j) + ".cellml"; }
 static int parentOf(const FileSpec &fs, int k) { return k < int(fs.parent.size()) ? fs.parent[k] : -1; }
+static std::string dirOfFile(const Graph &g, int f) { return f < int(g.dirOf.size()) ? DIRS[g.dirOf[f]] : ""; }
+static std::string relPathOf(const Graph &g, int f) { return dirOfFile(g, f) + fileName(f); } // below the delivery directory
+static std::vector<std::string> splitDir(const std::string &d)
+{
+    std::vector<std::string> v;
+    size_t b = 0;
+    while (b < d.size()) { size_t e = d.find('/', b); v.push_back(d.substr(b, e - b)); b = e + 1; }
+    return v;
+}
+// the href written in file `from` for file `to`: relative to the directory of the importing file
+static std::string hrefOf(const Graph &g, int from, int to)
+{
+    auto a = splitDir(dirOfFile(g, from)), b = splitDir(dirOfFile(g, to));
+    size_t k = 0;
+    while (k < a.size() && k < b.size() && a[k] == b[k]) ++k;
+    std::string rel;
+    for (size_t i = k; i < a.size(); ++i) rel += "../";
+    for (size_t i = k; i < b.size(); ++i) rel += b[i] + "/";
+    rel += fileName(to);
+    if (g.hrefStyle == 1) return "./" + rel;
+    if (g.hrefStyle == 2) return (a.empty() ? std::string("a/../") : "../" + a.back() + "/") + rel; // directories a/, a/b/ and s/ always exist
+    return rel;
+}
 static std::string entName(int kind, int k) { return (kind == COMP ? "c" : "u") + std::to_string(k); }
 
 // ------------------------------------------------------------------------------------------- shapes and index decoding
@@ -69,6 +96,7 @@ struct Shape
     int maxImports = -1;     // restriction on the number of import entities (-1: none)
     bool childOpt = true;    // concrete components may carry an encapsulated child that uses local units
     bool fixedLocal = false; // concrete entities take one fixed pattern: c_k uses u_k, u_i references u_{i+1}, the last units are base
+    bool cnOpt = false;      // concrete components may use local units only through a <cn cellml:units=...> in their math
     bool nest = false;       // additionally every encapsulation forest over the components of every file (imports nested under imports / under concrete components)
     std::vector<std::vector<std::vector<int>>> forests; // per file: all parent vectors
     static std::vector<std::vector<int>> allForests(int C)
@@ -114,7 +142,7 @@ struct Shape
             for (int k = 0; k < nu[f]; ++k) utargets.push_back({f, k});
         }
         for (int f = 0; f < files(); ++f) {
-            for (int k = 0; k < nc[f]; ++k) slots.push_back({f, COMP, k, fixedLocal ? 1 : 1 + nu[f] * (childOpt ? 2 : 1), int(ctargets.size())});
+            for (int k = 0; k < nc[f]; ++k) slots.push_back({f, COMP, k, fixedLocal ? 1 : 1 + nu[f] * (childOpt ? 2 : 1) + (cnOpt ? nu[f] : 0), int(ctargets.size())});
             for (int k = 0; k < nu[f]; ++k) slots.push_back({f, UNITS, k, fixedLocal ? 1 : int(unitsLocalOptions(nu[f], k).size()), int(utargets.size())});
         }
         for (int f = 0; f < files(); ++f) forests.push_back(nest ? allForests(nc[f]) : std::vector<std::vector<int>> {std::vector<int>(nc[f], -1)});
@@ -169,7 +197,11 @@ struct Shape
                 if (s.kind == COMP) e.local = s.k < nu[s.f] ? 1 + s.k : 0;
                 else e.local = s.k + 1 < nu[s.f] ? 1 << (s.k + 1) : 0;
             } else {
-                e.local = s.kind == COMP ? opt : unitsLocalOptions(nu[s.f], s.k)[opt];
+                if (s.kind == COMP) {
+                    int U = nu[s.f];
+                    e.local = opt;
+                    if (!childOpt && opt > U) e.local = opt + U; // without the child option the third block (cn) follows the first
+                } else e.local = unitsLocalOptions(nu[s.f], s.k)[opt];
             }
             (s.kind == COMP ? g.f[s.f].c : g.f[s.f].u)[s.k] = e;
         }
@@ -191,18 +223,20 @@ static std::string render(const Graph &g, int f, FileStatus variant = FS_OK)
         const Ent &e = fs.c[k];
         if (e.removed) continue;
         if (e.imp) {
-            d += "  <import xlink:href=\"" + fileName(e.tf) + "\">\n    <component name=\"" + entName(COMP, k) + "\" component_ref=\"" + entName(COMP, e.tk) + "\"/>\n  </import>\n";
+            d += "  <import xlink:href=\"" + hrefOf(g, f, e.tf) + "\">\n    <component name=\"" + entName(COMP, k) + "\" component_ref=\"" + entName(COMP, e.tk) + "\"/>\n  </import>\n";
         } else {
             std::string un = (e.local >= 1 && e.local <= U) ? entName(UNITS, e.local - 1) : "second";
-            d += "  <component name=\"" + entName(COMP, k) + "\">\n    <variable name=\"v\" units=\"" + un + "\"/>\n  </component>\n";
-            if (e.local > U) d += "  <component name=\"" + entName(COMP, k) + "_child\">\n    <variable name=\"w\" units=\"" + entName(UNITS, e.local - U - 1) + "\"/>\n  </component>\n";
+            d += "  <component name=\"" + entName(COMP, k) + "\">\n    <variable name=\"v\" units=\"" + un + "\"/>\n";
+            if (e.local > 2 * U) d += "    <math xmlns=\"http://www.w3.org/1998/Math/MathML\" xmlns:cellml=\"" + std::string(NS20) + "\"><apply><eq/><ci>v</ci><cn cellml:units=\"" + entName(UNITS, e.local - 2 * U - 1) + "\">1</cn></apply></math>\n";
+            d += "  </component>\n";
+            if (e.local > U && e.local <= 2 * U) d += "  <component name=\"" + entName(COMP, k) + "_child\">\n    <variable name=\"w\" units=\"" + entName(UNITS, e.local - U - 1) + "\"/>\n  </component>\n";
         }
     }
     for (int k = 0; k < U; ++k) {
         const Ent &e = fs.u[k];
         if (e.removed) continue;
         if (e.imp) {
-            d += "  <import xlink:href=\"" + fileName(e.tf) + "\">\n    <units name=\"" + entName(UNITS, k) + "\" units_ref=\"" + entName(UNITS, e.tk) + "\"/>\n  </import>\n";
+            d += "  <import xlink:href=\"" + hrefOf(g, f, e.tf) + "\">\n    <units name=\"" + entName(UNITS, k) + "\" units_ref=\"" + entName(UNITS, e.tk) + "\"/>\n  </import>\n";
         } else {
             d += "  <units name=\"" + entName(UNITS, k) + "\">\n    <unit units=\"second\"/>\n";
             for (int r = 0; r < U; ++r) if (e.local & (1 << r)) d += "    <unit units=\"" + entName(UNITS, r) + "\" exponent=\"2\"/>\n";
@@ -215,7 +249,7 @@ static std::string render(const Graph &g, int f, FileStatus variant = FS_OK)
         int C = int(fs.c.size());
         std::function<bool(int)> hasKids = [&](int k) {
             const Ent &e = fs.c[k];
-            if (!e.imp && e.local > U) return true;
+            if (!e.imp && e.local > U && e.local <= 2 * U) return true;
             for (int j = 0; j < C; ++j) if (!fs.c[j].removed && parentOf(fs, j) == k) return true;
             return false;
         };
@@ -224,7 +258,7 @@ static std::string render(const Graph &g, int f, FileStatus variant = FS_OK)
             if (!hasKids(k)) { d += ind + "<component_ref component=\"" + entName(COMP, k) + "\"/>\n"; return; }
             d += ind + "<component_ref component=\"" + entName(COMP, k) + "\">\n";
             const Ent &e = fs.c[k];
-            if (!e.imp && e.local > U) d += ind + "  <component_ref component=\"" + entName(COMP, k) + "_child\"/>\n";
+            if (!e.imp && e.local > U && e.local <= 2 * U) d += ind + "  <component_ref component=\"" + entName(COMP, k) + "_child\"/>\n";
             for (int j = 0; j < C; ++j) if (!fs.c[j].removed && parentOf(fs, j) == k) emit(j, depth + 1);
             d += ind + "</component_ref>\n";
         };
@@ -278,7 +312,7 @@ static std::string pathShape(const Graph &g, const std::vector<Node> &path)
         if (i) s += path[i].child ? "/" : ">"; // "/" = encapsulated child of the previous component
         s += path[i].kind == COMP ? "C" : "U";
         s += e.imp ? "i" : "c";
-        if (!e.imp && path[i].kind == COMP && e.local > int(g.f[path[i].f].u.size())) s += "k"; // units used by an encapsulated child
+        if (!e.imp && path[i].kind == COMP && e.local > int(g.f[path[i].f].u.size()) && e.local <= 2 * int(g.f[path[i].f].u.size())) s += "k"; // units used by an encapsulated child
     }
     return s;
 }
@@ -332,7 +366,7 @@ struct Ref
         } else if (n.kind == COMP) {
             if (e.local > 0) {
                 Node t {n.f, UNITS, (e.local - 1) % U};
-                if (!exists(t)) missing.push_back(e.local > U ? "units-used-by-child-component-missing" : "units-used-by-component-missing");
+                if (!exists(t)) missing.push_back(e.local > U && e.local <= 2 * U ? "units-used-by-child-component-missing" : "units-used-by-component-missing");
                 else out.push_back(t);
             }
         } else {
@@ -706,44 +740,63 @@ static const std::string &scratch()
     if (g_scratch.empty()) {
         const char *s = getenv("VERIF_SCRATCH");
         g_scratch = std::string(s ? s : "/verif/build/scratch") + "/" + std::to_string(getpid());
-        std::string cmd = "mkdir -p '" + g_scratch + "/w' '" + g_scratch + "/empty'";
+        std::string cmd = "mkdir -p '" + g_scratch + "/w/a/b' '" + g_scratch + "/w/s' '" + g_scratch + "/empty/a/b' '" + g_scratch + "/empty/s'";
         if (system(cmd.c_str()) != 0) { fprintf(stderr, "cannot create %s\n", g_scratch.c_str()); exit(3); }
         g_owner = getpid();
         atexit(rmScratchAtExit);
     }
     return g_scratch;
 }
-static std::vector<std::string> g_onDisk; // content cache of w/f<j>.cellml ("\x01" = absent)
-static bool writeFilesOnce(const std::vector<std::optional<std::string>> &texts)
+static std::map<std::string, std::string> g_onDisk; // relative path below w/ -> content of the file that is there
+static bool writeFilesOnce(const std::vector<std::optional<std::string>> &texts, const Graph &g)
 {
     std::string dir = scratch() + "/w/";
-    if (g_onDisk.size() < texts.size()) g_onDisk.resize(texts.size(), "\x01");
-    for (size_t j = 0; j < g_onDisk.size(); ++j) {
-        std::string want = (j < texts.size() && texts[j]) ? *texts[j] : std::string("\x01");
-        if (g_onDisk[j] == want) continue;
-        std::string path = dir + fileName(int(j));
+    std::map<std::string, std::string> want;
+    for (size_t j = 0; j < texts.size(); ++j) if (texts[j]) want[relPathOf(g, int(j))] = *texts[j];
+    for (auto it = g_onDisk.begin(); it != g_onDisk.end();) {
+        if (!want.count(it->first)) { unlink((dir + it->first).c_str()); it = g_onDisk.erase(it); } else ++it;
+    }
+    for (auto &kv : want) {
+        auto have = g_onDisk.find(kv.first);
+        if (have != g_onDisk.end() && have->second == kv.second) continue;
+        std::string path = dir + kv.first;
         // (no O_TRUNC on an existing file: ext4 answers truncate-then-write with a synchronous flush, 3 ms per file here)
-        bool exists = g_onDisk[j] != "\x01";
-        if (want == "\x01") unlink(path.c_str());
-        else {
-            if (exists && want.empty()) { unlink(path.c_str()); exists = false; }
-            int fd = open(path.c_str(), exists ? O_WRONLY : (O_WRONLY | O_CREAT | O_EXCL), 0644);
-            bool ok = fd >= 0 && write(fd, want.data(), want.size()) == ssize_t(want.size()) && (!exists || ftruncate(fd, off_t(want.size())) == 0);
-            if (fd >= 0) close(fd);
-            if (!ok) return false;
-        }
-        g_onDisk[j] = want;
+        bool exists = have != g_onDisk.end();
+        if (exists && kv.second.empty()) { unlink(path.c_str()); exists = false; }
+        int fd = open(path.c_str(), exists ? O_WRONLY : (O_WRONLY | O_CREAT | O_EXCL), 0644);
+        bool ok = fd >= 0 && write(fd, kv.second.data(), kv.second.size()) == ssize_t(kv.second.size()) && (!exists || ftruncate(fd, off_t(kv.second.size())) == 0);
+        if (fd >= 0) close(fd);
+        if (!ok) return false;
+        g_onDisk[kv.first] = kv.second;
     }
     return true;
 }
-static void writeFiles(const std::vector<std::optional<std::string>> &texts)
+static void writeFiles(const std::vector<std::optional<std::string>> &texts, const Graph &g)
 {
-    if (writeFilesOnce(texts)) return;
+    if (writeFilesOnce(texts, g)) return;
     // the directory was disturbed from outside (somebody cleaning build/scratch): start it afresh, once
-    std::string cmd = "rm -rf '" + scratch() + "/w'; mkdir -p '" + scratch() + "/w' '" + scratch() + "/empty'";
+    std::string cmd = "rm -rf '" + scratch() + "/w'; mkdir -p '" + scratch() + "/w/a/b' '" + scratch() + "/w/s' '" + scratch() + "/empty/a/b' '" + scratch() + "/empty/s'";
     if (system(cmd.c_str()) != 0) {}
-    g_onDisk.assign(g_onDisk.size(), "\x01");
-    if (!writeFilesOnce(texts)) { fprintf(stderr, "cannot write the scenario files under %s: %s\n", scratch().c_str(), strerror(errno)); exit(3); }
+    g_onDisk.clear();
+    if (!writeFilesOnce(texts, g)) { fprintf(stderr, "cannot write the scenario files under %s: %s\n", scratch().c_str(), strerror(errno)); exit(3); }
+}
+// "x/./y", "x/d/../y" -> "x/y" (what the operating system makes of the path, as long as d exists)
+static std::string lexicallyNormal(const std::string &path)
+{
+    std::vector<std::string> out;
+    size_t b = 0;
+    bool abs = !path.empty() && path[0] == '/';
+    while (b <= path.size()) {
+        size_t e = path.find('/', b);
+        if (e == std::string::npos) e = path.size();
+        std::string seg = path.substr(b, e - b);
+        if (seg == "..") { if (!out.empty() && out.back() != "..") out.pop_back(); else out.push_back(seg); }
+        else if (!seg.empty() && seg != ".") out.push_back(seg);
+        b = e + 1;
+    }
+    std::string r = abs ? "/" : "";
+    for (size_t i = 0; i < out.size(); ++i) r += (i ? "/" : "") + out[i];
+    return r;
 }
 
 // =========================================================================================== the scenario runner
@@ -800,9 +853,14 @@ struct Session
     std::string inputClass = "acyclic-input"; // appended to crash signatures: what the reference sees in the input
     volatile int *progress = nullptr; // shared with the parent of a forked child
 
-    Session(Ctx &c_, Mode m, bool guarded_, const std::string &sit) : c(c_), mode(m), guarded(guarded_), situation(sit)
+    const Graph *lay = nullptr;                             // the spec being delivered (for its directory layout)
+    std::string top;                                         // the delivery directory
+    std::vector<std::pair<std::string, int>> explicitKeys;   // library mode: (path below the delivery directory, file) to register instead of the bare file names
+    size_t addedCount = 0;
+    Session(Ctx &c_, Mode m, bool guarded_, const std::string &sit, const Graph &g) : c(c_), mode(m), guarded(guarded_), situation(sit), lay(&g)
     {
-        base = mode.disk ? scratch() + "/w/" : scratch() + "/empty/";
+        top = mode.disk ? scratch() + "/w/" : scratch() + "/empty/";
+        base = top + dirOfFile(g, 0);
     }
     std::string sig(const std::string &what) const { return what + ":" + mode.tag() + ":" + situation; }
 
@@ -848,6 +906,20 @@ struct Session
     bool fillLibrary(const std::vector<std::optional<std::string>> &texts)
     {
         libModels.assign(texts.size(), nullptr);
+        addedCount = 0;
+        if (!explicitKeys.empty()) {
+            // one model object per key, as loading from disk would make them
+            for (auto &kj : explicitKeys) {
+                if (kj.second < 0 || kj.second >= int(texts.size()) || !texts[kj.second]) continue;
+                auto parser = Parser::create(true);
+                auto m = parser->parseModel(*texts[kj.second]);
+                if (!m || parser->errorCount() != 0) { report(c, "HARNESS:library-text-not-parsed", {{"issues", issuesJson(parser)}}); return false; }
+                libModels[kj.second] = m;
+                if (!imp->addModel(m, top + kj.first)) { report(c, sig("library:addModel-refused-new-key"), detail); return false; }
+                ++addedCount;
+            }
+            return true;
+        }
         for (size_t j = 0; j < texts.size(); ++j) {
             if (!texts[j]) continue;
             auto parser = Parser::create(true);
@@ -856,18 +928,24 @@ struct Session
             if (!m || parser->errorCount() != 0) { report(c, "HARNESS:library-text-not-parsed", {{"issues", issuesJson(parser)}}); return false; }
             libModels[j] = m;
             if (!imp->addModel(m, fileName(int(j)))) { report(c, sig("library:addModel-refused-new-key"), detail); return false; }
+            ++addedCount;
         }
         return true;
     }
-    std::string keyOf(int j) const { return mode.disk ? base + fileName(j) : fileName(j); }
+    // the file of the graph a library key designates: the key, read as a path, must lead to that file
     int fileOfKey(const std::string &key) const
     {
-        std::string k = key;
-        if (mode.disk) { if (k.rfind(base, 0) != 0) return -1; k = k.substr(base.size()); }
-        int j = -1;
-        char tail[32] = {0};
-        if (sscanf(k.c_str(), "f%d.%31s", &j, tail) == 2 && std::string(tail) == "cellml" && fileName(j) == k) return j;
+        std::string k = lexicallyNormal(key), t = lexicallyNormal(top);
+        if (k.rfind(t + "/", 0) == 0) k = k.substr(t.size() + 1);
+        else if (!k.empty() && k[0] == '/') return -1;
+        for (size_t j = 0; j < lay->f.size(); ++j) if (k == relPathOf(*lay, int(j))) return int(j);
         return -1;
+    }
+    bool libraryHoldsFile(int j) const
+    {
+        size_t n = imp->libraryCount();
+        for (size_t i = 0; i < n && i < 64; ++i) if (fileOfKey(imp->key(i)) == j) return true;
+        return false;
     }
     int fileOfModel(const ModelPtr &m) const
     {
@@ -931,14 +1009,14 @@ struct Session
         if (bad) report(c, sig("library:incoherent"), {{"what", what}, {"case", detail}});
         if (mode.disk && resolvedOk && v.expect == EX_TRUE && judgeNeeded) {
             bool missing = false, extra = false;
-            for (int j : v.needed) if (!keys.count(keyOf(j))) missing = true;
+            for (int j : v.needed) if (!libraryHoldsFile(j)) missing = true;
             for (auto &k : keys) if (!v.needed.count(fileOfKey(k))) extra = true;
             if (missing) report(c, sig("library:needed-file-not-in-library-after-success"), detail);
             c.outcome(extra ? "library:holds-more-than-needed" : "library:exactly-the-needed-files");
         }
         if (!mode.disk) {
-            size_t added = 0;
-            for (auto &m : libModels) if (m) ++added;
+            size_t added = addedCount;
+            if (explicitKeys.empty()) { added = 0; for (auto &m : libModels) if (m) ++added; }
             if (n != added) report(c, sig("library:count-differs-from-models-added"), {{"count", n}, {"added", added}, {"case", detail}});
         }
     }
@@ -1021,7 +1099,7 @@ struct Session
                     ImportedEntityPtr ie;
                     if (n.kind == COMP) ie = root->component(entName(COMP, n.k)); else ie = root->units(entName(UNITS, n.k));
                     auto bound = ie && ie->importSource() ? ie->importSource()->model() : nullptr;
-                    if (!bound || bound != imp->library(keyOf(e.tf))) report(c, sig(ph + "resolve:import-source-not-bound-to-the-library-model-of-its-file"), detail);
+                    if (!bound || fileOfModel(bound) != e.tf || bound == root) report(c, sig(ph + "resolve:import-source-not-bound-to-the-library-model-of-its-file"), detail);
                 }
             }
         } else {
@@ -1145,7 +1223,7 @@ static json graphJson(const Graph &g)
             std::string s;
             if (e.removed) s = "REMOVED";
             else if (e.imp) s = "import " + fileName(e.tf) + "#" + entName(kind, e.tk);
-            else if (kind == COMP) { int U = int(g.f[f].u.size()); s = e.local == 0 ? "concrete" : e.local <= U ? "concrete, uses " + entName(UNITS, e.local - 1) : "concrete, encapsulated child uses " + entName(UNITS, e.local - U - 1); }
+            else if (kind == COMP) { int U = int(g.f[f].u.size()); s = e.local == 0 ? "concrete" : e.local <= U ? "concrete, uses " + entName(UNITS, e.local - 1) : e.local <= 2 * U ? "concrete, encapsulated child uses " + entName(UNITS, e.local - U - 1) : "concrete, uses " + entName(UNITS, e.local - 2 * U - 1) + " only in a cn"; }
             else { s = "concrete"; for (int b = 0; b < 8; ++b) if (e.local & (1 << b)) s += " ->" + entName(UNITS, b); }
             if (kind == COMP && parentOf(g.f[f], k) >= 0) s += " [encapsulated by " + entName(COMP, parentOf(g.f[f], k)) + "]";
             ents[entName(kind, k)] = s;
@@ -1165,6 +1243,13 @@ static std::vector<std::optional<std::string>> textsOf(const Graph &g)
     return t;
 }
 
+static json layoutJson(const Graph &g)
+{
+    json j = json::object();
+    for (size_t f = 0; f < g.f.size(); ++f) j[fileName(int(f))] = std::string("./") + dirOfFile(g, int(f));
+    j["href_style"] = HREF_STYLE[g.hrefStyle];
+    return j;
+}
 static std::string inputClassOf(const Verdict &v)
 {
     std::string s = v.crashProne ? "ordinary-units-cycle-reachable" : v.impCycleReachable ? "import-cycle-reachable" : v.fileCycle ? "files-import-from-each-other" : "acyclic-input";
@@ -1173,30 +1258,43 @@ static std::string inputClassOf(const Verdict &v)
 }
 
 // One fault-free or faulted scenario, one delivery mode: [flatten] resolve [hasUnresolved] flatten
-static void scenario(Ctx &c, const Graph &g, Mode mode, const std::string &situation, bool flattenFirst, bool forceFork = false)
+using KeyList = std::vector<std::pair<std::string, int>>; // (path below the delivery directory as the importer spelt it, file)
+static int scenario(Ctx &c, const Graph &g, Mode mode, const std::string &situation, bool flattenFirst, bool forceFork = false, const KeyList *keysIn = nullptr, KeyList *keysOut = nullptr)
 {
+    int result = -9;
     Verdict v = judge(g, !mode.strict);
     auto texts = textsOf(g);
     json detail = {{"graph", graphJson(g)}, {"mode", mode.tag()}, {"reference", v.cls}, {"situation", situation},
                    {"ordinary_units_cycle_reachable", v.crashProne}, {"import_cycle_reachable", v.impCycleReachable}};
     auto body = [&](Ctx &cc, bool guarded, volatile int *progress) {
-        Session s(cc, mode, guarded, situation);
+        Session s(cc, mode, guarded, situation, g);
         s.detail = detail;
         s.progress = progress;
         s.inputClass = inputClassOf(v);
+        if (!g.dirOf.empty()) { s.inputClass += "+files-in-several-directories"; s.detail["layout"] = layoutJson(g); }
+        if (keysIn) s.explicitKeys = *keysIn;
         if (!mode.strict && situation.find("cellml-1.1") != std::string::npos) s.inputClass += "+1.1-file-read-by-permissive-importer";
-        if (mode.disk) writeFiles(texts);
+        if (mode.disk) writeFiles(texts, g);
         if (!s.parseRoot(render(g, 0))) return;
         s.newImporter();
         if (!mode.disk && !s.fillLibrary(texts)) return;
         if (flattenFirst) s.flatten(v, v.rootHasImports ? 0 : -1, "before-resolve");
         int r = s.resolve(g, v, texts, "");
+        result = r;
+        if (keysOut) {
+            std::string t = lexicallyNormal(s.top) + "/";
+            for (size_t i = 0; i < s.imp->libraryCount() && i < 64; ++i) {
+                std::string k = s.imp->key(i);
+                if (k.rfind(s.top, 0) == 0) keysOut->push_back({k.substr(s.top.size()), s.fileOfKey(k)});
+            }
+        }
         s.flatten(v, r == 1 ? 1 : (r == 0 || r == 2) ? 0 : -1, "");
     };
     if (forceFork || g_options.count("fork")) {
-        if (mode.disk) writeFiles(texts); // keep the parent's view of the directory in step with the child's
+        if (mode.disk) writeFiles(texts, g); // keep the parent's view of the directory in step with the child's
         runForked(c, detail, body);
     } else body(c, !g_options.count("noguard"), nullptr);
+    return result;
 }
 
 static const std::vector<Mode> MODES_BOTH = {{true, true}, {false, true}};
@@ -1208,6 +1306,51 @@ static void runGraph(const std::string &shape, uint64_t i, Ctx &c)
     for (auto m : MODES_BOTH) {
         if (!both && g_options["mode"] != m.tag()) continue;
         scenario(c, g, m, "fault-free", (i & 1) != 0);
+    }
+}
+
+// ------------------------------------------------------------------------------------------- directory layouts
+// Every file of the graph in every directory of {./, a/, a/b/, s/} (the root model in ./ or a/), hrefs relative to the importing file in
+// three spellings; delivered on disk, then through a library registered under exactly the keys the on-disk run produced.
+struct LayoutSpace
+{
+    int F, rootDirs, styles;
+    uint64_t perGraph() const { uint64_t n = uint64_t(rootDirs) * styles; for (int f = 1; f < F; ++f) n *= 4; return n; }
+};
+static LayoutSpace layoutSpace(const Shape &sh, bool full) { return LayoutSpace {sh.files(), full ? 2 : 1, full ? 3 : 1}; }
+static Graph layoutGraph(const Shape &sh, bool full, uint64_t i)
+{
+    LayoutSpace ls = layoutSpace(sh, full);
+    Radix r(i);
+    int style = int(r.take(ls.styles));
+    std::vector<int> dirs(ls.F, 0);
+    dirs[0] = int(r.take(ls.rootDirs));
+    for (int f = 1; f < ls.F; ++f) dirs[f] = int(r.take(4));
+    Graph g = sh.decode(r.v);
+    g.dirOf = dirs;
+    g.hrefStyle = style;
+    return g;
+}
+static void runLayout(const std::string &shape, bool full, uint64_t i, Ctx &c)
+{
+    Graph g = layoutGraph(shapeOf(shape), full, i);
+    Verdict v = judge(g, false);
+    if (!v.rootHasImports || !v.connected) { c.outcome(!v.rootHasImports ? "layout:skipped:no-imports-in-root" : "layout:skipped:a-file-is-unreachable"); return; }
+    if (!full && (v.impCycleReachable || v.crashProne)) { c.outcome("layout:skipped:cyclic-graph-(run-by-the-full-layout-families)"); return; } // thousands of stack overflows: the reduced family keeps to the acyclic side
+    bool flat = true;
+    for (int d : g.dirOf) if (d) flat = false;
+    std::string situation = std::string("directory-layout:hrefs-") + HREF_STYLE[g.hrefStyle];
+    c.outcome(std::string("layout:") + (flat ? "all-in-one-directory" : "several-directories") + ":" + HREF_STYLE[g.hrefStyle]);
+    KeyList keys;
+    int rd = scenario(c, g, Mode {true, true}, situation, (i & 1) != 0, false, nullptr, &keys);
+    // the same through the library: every key the on-disk run produced, plus the plain path of every file it did not load
+    std::set<int> have;
+    for (auto &kj : keys) have.insert(kj.second);
+    for (size_t f = 0; f < g.f.size(); ++f) if (!have.count(int(f))) keys.push_back({relPathOf(g, int(f)), int(f)});
+    int rl = scenario(c, g, Mode {false, true}, situation, (i & 1) == 0, false, &keys, nullptr);
+    if (rd >= 0 && rl >= 0 && rd <= 2 && rl <= 2 && rd != rl && !v.fileCycleOnly) {
+        Session tmp(c, Mode {false, true}, false, situation, g);
+        report(c, "layout:library-delivery-under-the-same-keys-differs-from-disk-delivery:" + inputClassOf(v), {{"graph", graphJson(g)}, {"layout", layoutJson(g)}, {"disk", rd}, {"library", rl}, {"reference", v.cls}});
     }
 }
 
@@ -1331,18 +1474,18 @@ static void repairSequence(Ctx &c, const Graph &g0, const Verdict &v0, const Fau
                    {"ordinary_units_cycle_reachable", vf.crashProne}, {"import_cycle_reachable", vf.impCycleReachable}};
     bool judged = variant != 0 && !reuseObjects;
     auto body = [&](Ctx &cc, bool guarded, volatile int *progress) {
-        Session s(cc, mode, guarded, situation);
+        Session s(cc, mode, guarded, situation, g0);
         s.detail = detail;
         s.progress = progress;
         s.inputClass = inputClassOf(vf);
-        if (mode.disk) writeFiles(textsF);
+        if (mode.disk) writeFiles(textsF, f.g);
         if (!s.parseRoot(render(g0, 0))) return;
         s.newImporter();
         if (!mode.disk && !s.fillLibrary(textsF)) return;
         int r1 = s.resolve(f.g, vf, textsF, "faulted", false); // judged by the faults family; here it only sets the scene
         if (flattenBetween) s.flatten(vf, r1 == 1 ? 1 : (r1 == 0 || r1 == 2) ? 0 : -1, "faulted");
         // repair
-        if (mode.disk) writeFiles(texts0);
+        if (mode.disk) writeFiles(texts0, g0);
         std::vector<ModelPtr> old = s.libModels;
         // an application may well keep the first importer and the models it loaded (for other work) while it resolves afresh
         std::vector<ModelPtr> stillAlive;
@@ -1538,6 +1681,14 @@ int main(int argc, char **argv)
         s.nest = true;
         addShape(s);
     };
+    {
+        Shape s; // g3 plus the "only through a cn" way of using units
+        s.name = "q3";
+        s.nc = {1, 1, 1};
+        s.nu = {1, 1, 1};
+        s.cnOpt = true;
+        addShape(s);
+    }
     N("n2", {2, 2}, {0, 0});
     N("r3", {3, 1}, {0, 0});
     N("n3", {2, 2, 1}, {0, 0, 0});
@@ -1548,6 +1699,20 @@ int main(int argc, char **argv)
         fs.push_back({"graphs-" + n, [n] { return shapeOf(n).total; }, [n](uint64_t i, Ctx &c) { runGraph(n, i, c); }, [n](uint64_t i) { return showGraph(n, i); }});
         fs.push_back({"faults-" + n, [n] { return shapeOf(n).total; }, [n](uint64_t i, Ctx &c) { runFaults(n, i, c); }, [n](uint64_t i) { return showGraph(n, i); }});
         fs.push_back({"repairs-" + n, [n] { return shapeOf(n).total; }, [n](uint64_t i, Ctx &c) { runRepairs(n, i, c); }, [n](uint64_t i) { return showGraph(n, i); }});
+    }
+    for (auto &kv : g_shapes) {
+        std::string n = kv.first;
+        for (int full = 0; full < 2; ++full) {
+            bool fl = full != 0;
+            fs.push_back({std::string(fl ? "layouts-" : "layoutsq-") + n, [n, fl] { return shapeOf(n).total * layoutSpace(shapeOf(n), fl).perGraph(); },
+                          [n, fl](uint64_t i, Ctx &c) { runLayout(n, fl, i, c); },
+                          [n, fl](uint64_t i) {
+                              Graph g = layoutGraph(shapeOf(n), fl, i);
+                              json files = json::object();
+                              for (size_t f = 0; f < g.f.size(); ++f) files[relPathOf(g, int(f))] = render(g, int(f));
+                              return json {{"graph", graphJson(g)}, {"layout", layoutJson(g)}, {"reference", judge(g, false).cls}, {"files", files}};
+                          }});
+        }
     }
     fs.push_back({"selftest", [] { return uint64_t(1); }, runSelfTest, [](uint64_t) { return json{{"selftest", "fault documents have the properties their names claim"}}; }});
     return harnessMain(argc, argv, fs);
